@@ -92,8 +92,13 @@ func (s *State) callFunc(fn *ssa.Function, args []Value, where string, closure .
 	if s.pure == 0 && s.ghostlog[shortFn(fn)] {
 		// designated by the contract (ghostlog): the call is an observable event of this function, not executed
 		var res []Value
-		for i, t := range resultTypes(fn.Signature) {
-			res = append(res, s.symValue(t, fmt.Sprintf("%s.ret%d", lastSeg(shortFn(fn)), i)))
+		if fc := s.eng.contracts[fn]; fc != nil && !fc.Inline && fn != s.eng.root && s.ghostlogContract[shortFn(fn)] {
+			// the recorded callee has a contract of its own: the event is recorded AND its contract describes the results
+			res = s.applyContract(fn, fc, args, where)
+		} else {
+			for i, t := range resultTypes(fn.Signature) {
+				res = append(res, s.symValue(t, fmt.Sprintf("%s.ret%d", lastSeg(shortFn(fn)), i)))
+			}
 		}
 		e := LogEntry{Callee: shortFn(fn), Args: args, Arr: &ArrZero{W: 8}, Off: Const(64, 0), N: Const(64, 0), RetN: Const(64, 0), Err: s.zeroValue(errorType())}
 		if len(res) > 0 {
@@ -648,15 +653,17 @@ func (s *State) havocRegion(r *Region, why string) {
 	}
 	sub := s.navigate(cur, r.Path)
 	var t types.Type = o.Type
+	pathName := ""
 	for _, sel := range r.Path {
 		switch u := t.Underlying().(type) {
 		case *types.Struct:
+			pathName += "." + u.Field(sel.Field).Name()
 			t = u.Field(sel.Field).Type()
 		case *types.Array:
 			t = u.Elem()
 		}
 	}
-	s.heap[o.ID] = s.update(cur, r.Path, s.havocValue(sub, t, "havoc."+why))
+	s.heap[o.ID] = s.update(cur, r.Path, s.havocValue(sub, t, "havoc."+why+pathName))
 }
 
 // havocValue: fresh value of the same shape (opaque library objects keep their immutable ghost parts).
